@@ -234,7 +234,7 @@ func TestArrivalRace(t *testing.T) {
 					q, _ := reg.GaugeByID(core.MetricQueueSize)
 					return J{"busy": busy(), "gauge": int(dl.VerifInFlight()), "q": q, "t": 0}
 				}
-				cfg := wrapCfg{Kind: "queue", Ctor: "arrival-race/" + point, Limit: 1, QMax: qmax, QTimeout: 0, EvictCtx: true, Ordering: "fifo", Expect: "fifo", Procs: names}
+				cfg := wrapCfg{Kind: "queue", Ctor: "arrival-race/" + point, Limit: 1, QMax: qmax, QTimeout: 0, EvictCtx: true, Ordering: "fifo", Expect: "any", Procs: names}
 				w.write(J{"ev": "Reset", "trace": trace, "cfg": cfg, "obs": s.observe()})
 				i := 0
 				do := func(st schedStep) bool {
